@@ -10,7 +10,8 @@ def main():
     checks, na = [], []
     for pid in ALL:
         path = os.path.join(ROOT, "tools", "props", pid.lower() + ".py")
-        if not os.path.exists(path):
+        claimed = json.load(open(os.path.join(ROOT, "claimed.json")))
+        if not os.path.exists(path) or pid not in claimed:
             na.append({"property_id": pid, "reason": PENDING_REASON})
             continue
         mod = importlib.import_module("props." + pid.lower())
